@@ -22,7 +22,9 @@ Lemma keeps2_refl d : keeps2 d d. Proof. constructor; reflexivity. Qed.
 Lemma keeps2_trans a b c : keeps2 a b -> keeps2 b c -> keeps2 a c.
 Proof. intros [] []. constructor; congruence. Qed.
 
-Ltac k2 := constructor; frw; reflexivity.
+(* conversion first (cheap on concrete updaters); the rewrite rules when the goal still contains an existential variable *)
+Ltac rfl_noevar := match goal with |- ?g => tryif has_evar g then fail else reflexivity end.
+Ltac k2 := constructor; first [rfl_noevar | (frw; reflexivity)].
 Lemma fst_pair2 {A B : Type} (a : A) (b : B) : fst (a, b) = a. Proof. reflexivity. Qed.
 
 Lemma relay_hi_keeps2 k d u hi : keeps2 d (relay_hi k d u hi).
@@ -181,6 +183,24 @@ Qed.
 
 End MoveRS.
 
+(* let-free forms of the accounting stage (equations proved once, rewritten instead of unfolding inside big hypotheses) *)
+Definition mpd_write (d : dev) (m : mp) (up : bool) : dev :=
+  if up then upd_times (upd_pt d (m_pos m) (m_tilt m)) (m_time m) (down_time (upd_pt d (m_pos m) (m_tilt m))) (last_time (upd_pt d (m_pos m) (m_tilt m))) (last_comm (upd_pt d (m_pos m) (m_tilt m)))
+  else upd_times (upd_pt d (m_pos m) (m_tilt m)) (up_time (upd_pt d (m_pos m) (m_tilt m))) (m_time m) (last_time (upd_pt d (m_pos m) (m_tilt m))) (last_comm (upd_pt d (m_pos m) (m_tilt m))).
+Definition mpd_lost (d : dev) (im : bool) : dev := if autocal_done d && im then fl_set d FLAG_CALIBRATION_LOST else d.
+Lemma move_position_d_eq o k d f up im :
+  move_position_d o k d f up im =
+  if m_off (move_position o (cfg_of k d) (pos d) (tilt d) (carry_of up d) f up)
+  then set_relay k (mpd_lost (mpd_write d (move_position o (cfg_of k d) (pos d) (tilt d) (carry_of up d) f up) up) im) RELAY_OFF false false
+  else mpd_write d (move_position o (cfg_of k d) (pos d) (tilt d) (carry_of up d) f up) up.
+Proof. reflexivity. Qed.
+Lemma acc_post_pre_eq o k e up im el f :
+  ac_step (acc_cm k (acc_add e up el) up im) = 0 ->
+  acc_post o k (acc_pre k e up im el) up im f =
+  move_position_d o k (calibrate_d o k (fl_clear (acc_cm k (acc_add e up el) up im) FLAG_CALIBRATION_IN_PROGRESS) f
+                         (carry_of up (fl_clear (acc_cm k (acc_add e up el) up im) FLAG_CALIBRATION_IN_PROGRESS)) (end_stop up)) f up im.
+Proof. intros H. unfold acc_post, acc_pre, autocalibrate. rewrite H. reflexivity. Qed.
+
 Section CalCallback.
 Variable o : fpops.
 Hypothesis OK : fp_ok o.
@@ -240,17 +260,19 @@ Lemma cal_account up k e im el d3 :
   time1 d3 = time1 e /\ time2 d3 = time2 e /\ last_comm d3 = last_comm e /\ now d3 = now e.
 Proof.
   intros R C Hel Hc Hsum HT E3 NF. cbv zeta.
-  unfold acc_post, acc_pre in E3.
   pose proof (cal_only _ _ C) as Oe.
   destruct (acc_add_facts up e el (acc_add e up el) Oe Hel Hc Hsum eq_refl) as (Ao & AO & Alt & Alc & An & As & Ap & At & Ac).
   assert (Ka : keeps2 e (acc_add e up el)) by (unfold acc_add; destruct up; k2).
+  assert (S40 : ac_step (acc_cm k (acc_add e up el) up im) = 0).
+  { assert (Kcm0 : keeps2 (acc_add e up el) (acc_cm k (acc_add e up el) up im))
+      by (unfold acc_cm; destruct (0 <? carry_of up (acc_add e up el)); [apply check_motor_keeps2|apply keeps2_refl]).
+    rewrite (k2_step _ _ Kcm0), (k2_step _ _ Ka). exact (cal_step _ _ C). }
+  rewrite (acc_post_pre_eq o k e up im el (full_k up e) S40) in E3. clear S40.
   remember (acc_add e up el) as d2a eqn:E2a. clear E2a.
   assert (Scm : sub up d2a (acc_cm k d2a up im)) by (unfold acc_cm; destruct (0 <? carry_of up d2a); [apply sub_check_motor|apply sub_refl]).
   assert (Kcm : keeps2 d2a (acc_cm k d2a up im)) by (unfold acc_cm; destruct (0 <? carry_of up d2a); [apply check_motor_keeps2|apply keeps2_refl]).
   remember (acc_cm k d2a up im) as d4 eqn:E4. clear E4.
   assert (S4 : ac_step d4 = 0) by (rewrite (k2_step _ _ Kcm), (k2_step _ _ Ka); exact (cal_step _ _ C)).
-  assert (Eac : autocalibrate k d4 im = (fl_clear d4 FLAG_CALIBRATION_IN_PROGRESS, false)) by (unfold autocalibrate; rewrite S4; reflexivity).
-  rewrite Eac in E3. unfold acc_full in E3. rewrite !fst_pair2 in E3. cbn [snd] in E3.
   assert (S5 : sub up d4 (fl_clear d4 FLAG_CALIBRATION_IN_PROGRESS)) by apply sub_fl_clear.
   assert (K5 : keeps2 d4 (fl_clear d4 FLAG_CALIBRATION_IN_PROGRESS)) by k2.
   remember (fl_clear d4 FLAG_CALIBRATION_IN_PROGRESS) as d5 eqn:E5. clear E5.
@@ -263,11 +285,11 @@ Proof.
   assert (NF5 : nofall up (outs d5)) by (exact (ext_nofall up _ _ X57 NF)).
   pose proof (sub_on up _ _ S25 NF5 AO) as O5.
   pose proof (sub_carry up _ _ S25) as C5.
-  assert (Em : move_position o (cfg_of k d5) (pos d5) (tilt d5) (if up then up_time d5 else down_time d5) (full_k up e) up =
+  assert (Em : move_position o (cfg_of k d5) (pos d5) (tilt d5) (carry_of up d5) (full_k up e) up =
                move_position o (cfg_of k e) (pos e) (tilt e) (carry up e + el) (full_k up e) up).
   { assert (Ecf : cfg_of k d5 = cfg_of k e) by (unfold cfg_of; rewrite (k2_t1 _ _ K05), (k2_t2 _ _ K05); reflexivity).
-    rewrite Ecf, (k2_pos _ _ K05), (k2_tilt _ _ K05). f_equal. change (if up then up_time d5 else down_time d5) with (carry up d5). lia. }
-  unfold move_position_d in E3. rewrite Em in E3.
+    rewrite Ecf, (k2_pos _ _ K05), (k2_tilt _ _ K05). f_equal. lia. }
+  rewrite move_position_d_eq, Em in E3.
   remember (move_position o (cfg_of k e) (pos e) (tilt e) (carry up e + el) (full_k up e) up) as m eqn:Emm.
   assert (Mt : m_tilt m = tilt e).
   { subst m. exact (proj1 (proj2 (move_position_rs o OK (cfg_of k e) (pos e) (tilt e) (carry up e + el) (full_k up e) up (rsk_cfg k e R) (cal_known _ _ C) HT))). }
@@ -280,21 +302,19 @@ Proof.
   clear Emm Em.
   destruct (m_off m) eqn:Eoff.
   - exfalso.
-    remember (if up then upd_times (upd_pt d5 (m_pos m) (m_tilt m)) (m_time m) (down_time (upd_pt d5 (m_pos m) (m_tilt m))) (last_time (upd_pt d5 (m_pos m) (m_tilt m))) (last_comm (upd_pt d5 (m_pos m) (m_tilt m)))
-              else upd_times (upd_pt d5 (m_pos m) (m_tilt m)) (up_time (upd_pt d5 (m_pos m) (m_tilt m))) (m_time m) (last_time (upd_pt d5 (m_pos m) (m_tilt m))) (last_comm (upd_pt d5 (m_pos m) (m_tilt m)))) as d6 eqn:E6.
-    assert (P6 : powered up d6 = true) by (subst d6; destruct O5 as [P _]; unfold powered in *; destruct up; frw; exact P).
+    remember (mpd_write d5 m up) as d6 eqn:E6.
+    assert (P6 : powered up d6 = true) by (subst d6; destruct O5 as [P _]; unfold mpd_write, powered in *; destruct up; frw; exact P).
     clear E6.
-    remember (if autocal_done d6 && im then fl_set d6 FLAG_CALIBRATION_LOST else d6) as d7 eqn:E7.
-    assert (P7 : powered up d7 = true) by (subst d7; destruct (autocal_done d6 && im); unfold powered in *; destruct up; frw; exact P6).
+    remember (mpd_lost d6 im) as d7 eqn:E7.
+    assert (P7 : powered up d7 = true) by (subst d7; unfold mpd_lost; destruct (autocal_done d6 && im); unfold powered in *; destruct up; frw; exact P6).
     clear E7. rewrite E3 in NF. exact (set_relay_off_falls up k d7 false P7 NF).
   - assert (K57 : keeps2 d5 (upd_pt d5 (pos d5) (tilt d5))) by k2.
     subst d3.
     split; [eapply ext_trans; [|exact X57]; destruct (sub_log up _ _ S25) as [n L]; exists n; rewrite L, Ao; reflexivity|].
-    assert (O7 : only up (if up then upd_times (upd_pt d5 (m_pos m) (m_tilt m)) (m_time m) (down_time (upd_pt d5 (m_pos m) (m_tilt m))) (last_time (upd_pt d5 (m_pos m) (m_tilt m))) (last_comm (upd_pt d5 (m_pos m) (m_tilt m)))
-              else upd_times (upd_pt d5 (m_pos m) (m_tilt m)) (up_time (upd_pt d5 (m_pos m) (m_tilt m))) (m_time m) (last_time (upd_pt d5 (m_pos m) (m_tilt m))) (last_comm (upd_pt d5 (m_pos m) (m_tilt m))))).
-    { destruct O5 as [P Q]. unfold only, powered in *. destruct up; cbn [negb] in *; frw; auto. }
+    assert (O7 : only up (mpd_write d5 m up)).
+    { destruct O5 as [P Q]. unfold mpd_write, only, powered in *. destruct up; cbn [negb] in *; frw; auto. }
     split.
-    { constructor; try exact O7.
+    { constructor; try exact O7; unfold mpd_write.
       - destruct up; frw; exact Mk.
       - destruct up; frw; rewrite Mt; exact (cal_tilt _ _ C).
       - destruct up; frw; rewrite (k2_step _ _ K05); exact (cal_step _ _ C).
@@ -303,7 +323,7 @@ Proof.
       - destruct up; frw; rewrite (k2_perf _ _ K05); exact (cal_perf _ _ C).
       - pose proof (cal_full _ _ C) as F. unfold full_k in *. destruct up; frw; rewrite ?(k2_t1 _ _ K05), ?(k2_t2 _ _ K05); exact F. }
     pose proof (sub_lc up _ _ S25) as Lc5. pose proof (sub_now up _ _ S25) as Nw5.
-    destruct up; frw; unfold carry_of; frw; repeat split; auto; try congruence;
+    unfold mpd_write. destruct up; frw; unfold carry_of; frw; repeat split; auto; try congruence;
       rewrite ?(k2_t1 _ _ K05), ?(k2_t2 _ _ K05); try reflexivity; congruence.
 Qed.
 
